@@ -34,6 +34,10 @@ TAU_LP = 1e-6
 # (probe, phase 1); the band is ~70x that.
 TAU_SOCP_ABS = 2e-6
 TAU_SOCP_REL = 1e-4
+# Decisions taken on the SCS fallback (after a *natural* cvxpy SolverError of the default solver): SCS works to an
+# absolute tolerance of ~1e-4 in objective units; inside this band such a decision is "within numerical tolerance".
+TAU_SCS_ABS = 3e-4
+TAU_SCS_REL = 1e-3
 
 
 def vopy_src() -> str:
